@@ -230,6 +230,14 @@ def model_value(m, v, depth=0, ctx=None):
     return {"term": str(t)[:200]}
 
 
+class _LemmaCtx:
+    """Frame context of a code lemma: lets spec functions resolve by name inside its body."""
+
+    def __init__(self, module):
+        self.module = module
+        self.loops = {}
+
+
 class Verifier:
     def __init__(self, world: World, cdb: ContractDB, tier: str = "quick"):
         self.w = world
@@ -271,7 +279,85 @@ class Verifier:
         rep.wall = time.time() - t0
         return rep
 
+    def verify_code_lemma(self, name: str) -> FuncReport:
+        """A lemma whose body *executes real functions* symbolically (e.g. decode(encode(x))) and
+        ends in `return {clause: ...}`.  Parameters are symbolic inputs of the annotated types."""
+        rep = FuncReport("code_lemma:" + name)
+        t0 = time.time()
+        modname, node = self.cdb.code_lemmas[name]
+        rep.location = f"{modname}:{node.lineno}"
+        rep.contract_hash = __import__("hashlib").sha256(ast.dump(node).encode()).hexdigest()[:16]
+        rep.props = []
+        try:
+            work = [[]]
+            seen = {}
+            notes = set()
+            first = True
+            while work:
+                dec = work.pop()
+                rep.paths += 1
+                if rep.paths > MAX_PATHS:
+                    raise Unsupported("path explosion")
+                it = Evaluator(self.w, self.cdb, dec)
+                fr = Frame(modname)
+                fr.contract = _LemmaCtx(modname)
+                inputs = {}
+                for a in node.args.args:
+                    ty = self.cdb.types.spec_ty(a.annotation, modname)
+                    fr.env[a.arg] = it.assume_wf(it.fresh_sv("in_" + a.arg, ty))
+                    inputs[a.arg] = fr.env[a.arg]
+                it.alive_pre = it.alive
+                old_heap = it.snapshot()
+                fr.ghost = {"__old_heap__": old_heap, "__old_env__": dict(fr.env)}
+                try:
+                    body = [st for st in node.body if not (isinstance(st, ast.Expr) and isinstance(st.value, ast.Constant))]
+                    ret = body[-1] if body and isinstance(body[-1], ast.Return) else None
+                    try:
+                        it.exec_block(body[:-1] if ret is not None else body, fr)
+                        rep.exits["return"] += 1
+                        if first:
+                            rep.canary = it.check(z3.BoolVal(True))
+                        if ret is not None:
+                            pfr = Frame(modname, pure=True)
+                            pfr.env = fr.env
+                            pfr.contract = fr.contract
+                            pfr.ghost = fr.ghost
+                            pfr.old_heap = old_heap
+                            pfr.old_env = fr.ghost["__old_env__"]
+                            for cname, term in self.cdb.clauses_of_expr(it, ret.value, pfr):
+                                kind = "property" if cname.startswith("P_") else "supporting"
+                                it.oblige(f"lemma:{cname}", term, kind, site=("clemma", cname))
+                    except RaiseSig as rs:
+                        rep.exits["raise"] += 1
+                        it.oblige(f"unexpected-exception:{rs.exc.cls.rsplit('.', 1)[-1]}", z3.BoolVal(False), "property", site=("cunexp", rs.exc.cls))
+                except PathAbort:
+                    rep.exits["infeasible"] += 1
+                first = False
+                work.extend(it.alternatives)
+                notes |= it.notes
+                for ob in it.obligations:
+                    key = (ob.name, ob.site)
+                    if key in seen:
+                        continue
+                    seen[key] = ob
+                    discharge(ob, self.tier)
+                    d = {"name": f"code_lemma:{name}/{ob.name}", "kind": ob.kind, "status": ob.status, "backend": ob.backend, "ms": round(ob.ms, 1),
+                         "path": "".join("T" if x else "F" for x in ob.site[1])}
+                    if ob.status == "refuted" and ob.model is not None:
+                        d["inputs"] = {k: model_value(ob.model, v, 0, (it, it.snapshots[0])) for k, v in inputs.items()}
+                        d["model_text"] = str(ob.model)[:3000]
+                    rep.obligations.append(d)
+            rep.notes = sorted(notes)
+        except Unsupported as e:
+            rep.error = f"unsupported: {e}"
+        except Exception as e:
+            rep.error = f"engine error: {type(e).__name__}: {e}\n{traceback.format_exc()[-1500:]}"
+        rep.wall = time.time() - t0
+        return rep
+
     def verify(self, target: str) -> FuncReport:
+        if target.startswith("code_lemma:"):
+            return self.verify_code_lemma(target[11:])
         if target.startswith("lemma:"):
             return self.verify_lemma(target[6:])
         rep = FuncReport(target)
